@@ -14,6 +14,21 @@ CHECKS = {
         note="In-memory S3 with atomic If-Match/If-None-Match and fresh ETag per write stands for S3; model time maps 1 tick = 1 h of TTL. " + TB),
 }
 
+CORE_TECH = ("TLA+ spec Core.tla (SQLite WAL environment + litestream verify/sync/checkpoint/lifecycle): TLC exhaustive; TLC behaviours "
+             "(simulate / dumped graph) + seeded schedules replayed on the real SQLite + litestream; TLC judge CoreObs.tla over the recorded states")
+CORE_NOTE = ("Synchronous litestream (no monitor goroutines), file replica, modernc SQLite; source state derived by SQLite's own recovery of a copy of (db,-wal); "
+             "known findings identified by history signatures computed in TLA+ (known_findings.json). " + TB)
+CHECKS.update({
+    "C01": dict(technique=CORE_TECH, design="7/C01", note=CORE_NOTE,
+        text="Core.tla is model-checked exhaustively (as-is code modulo the listed known findings); its behaviours and seeded histories over the full operation vocabulary (writes, growth, shrink, VACUUM, DDL, rollbacks, all checkpoint modes by app and litestream, long readers, page sizes, auto_vacuum modes) are replayed on the real code; at every acknowledgement the real Replica.Restore output is compared page by page with the source by the TLA+ judge."),
+    "C02": dict(technique=CORE_TECH, design="7/C02", note=CORE_NOTE,
+        text="NoUncommitted is model-checked in Core.tla (spilled / rolled-back frames physically in the WAL); on the real code every TXID listed at any level is restored and the TLA+ judge requires each to equal one recorded committed state, in order, with level 0 gapless from 1; chunked syncs and open transactions across litestream steps included."),
+    "C04": dict(technique=CORE_TECH, design="7/C04", note=CORE_NOTE,
+        text="Core.tla explores stop/start of the same object, new process, crash and arbitrary application activity while litestream is down; replays add lost/reset state directories and replaced database files; the TLA+ judge tracks from observed WAL states whether uncopied committed frames were destroyed and demands a full snapshot above the replica's TXIDs, position agreement at every acknowledgement, and C01."),
+    "C14": dict(technique=CORE_TECH, design="7/C14", note=CORE_NOTE,
+        text="Every history is executed twice (with and without litestream); the TLA+ judge requires the application-visible content (schema + rows minus _litestream_*) unchanged by every litestream step and equal to the control run after every application step, _litestream_lock empty, integrity_check ok, WAL mode."),
+})
+
 PENDING = {}
 for i in range(1, 21):
     pid = "C%02d" % i
